@@ -1,6 +1,7 @@
 import Py4hwV.Emit.Cert
 import Py4hwV.Proofs.C01FlatInst
 import Py4hwV.Props.C08
+import Py4hwV.Proofs.C01Gates
 /-
   C01 design level: children with several leaves / several assigns (`GKind`): what their assigns read, and that each
   assign, evaluated on operands carrying the simulator's values, yields the simulator's value of its target whenever the
@@ -50,6 +51,119 @@ theorem not1_mod (rw tw x : Nat) (h : rw ≤ tw ∨ x < 2 ^ tw) : Leaf.not1 rw (
   rcases h with h | h
   · rw [mod_mod_pow _ _ _ h]
   · rw [Nat.mod_eq_of_lt h]
+
+/-! ### N-ary gates: Buf, or a ladder of And2 / Or2 -/
+
+theorem fix_buf {wd : Nat → Nat} {V : Nat → Nat} {ls : List CLeaf} (h : LeavesFix wd V ls) (a r : Nat)
+    (hp : (Kind.buf a r).leaf wd ∈ ls) : V r = Leaf.buf (wd r) (V a) := by
+  have := h.single _ hp
+  simp only [Kind.out, Kind.leaf, List.map, g_cons0] at this
+  rw [this]; exact Leaf.gen_buf (wd r) (V a)
+
+theorem fold_mod_congr (f : Nat → Nat → Nat) (hmod : ∀ p q w, f p q % 2 ^ w = f (p % 2 ^ w) (q % 2 ^ w) % 2 ^ w) (w : Nat)
+    (l : List Nat) (p q : Nat) (h : p % 2 ^ w = q % 2 ^ w) : l.foldl f p % 2 ^ w = l.foldl f q % 2 ^ w := by
+  induction l generalizing p q with
+  | nil => exact h
+  | cons x l ih =>
+    simp only [List.foldl_cons]
+    apply ih
+    rw [hmod p x w, hmod q x w, h]
+
+theorem ladder_val {wd : Nat → Nat} {V : Nat → Nat} {ls : List CLeaf} (mk : Nat → Nat → Nat → Kind) (f : Nat → Nat → Nat)
+    (hleaf : ∀ a b o, (mk a b o).leaf wd ∈ ls → V o = f (V a) (V b) % 2 ^ wd o)
+    (hmod : ∀ p q w, f p q % 2 ^ w = f (p % 2 ^ w) (q % 2 ^ w) % 2 ^ w) :
+    ∀ (xs os : List Nat) (acc : Nat), os.length = xs.length → (∀ c, c ∈ ladderLeaves wd mk acc xs os → c ∈ ls) →
+      ∀ r, os.getLast? = some r → (∀ o, o ∈ os → wd r ≤ wd o) →
+      V r = (xs.foldl (fun p x => f p (V x)) (V acc)) % 2 ^ wd r := by
+  intro xs
+  induction xs with
+  | nil =>
+    intro os acc hlen _ r hr
+    cases os with
+    | nil => simp at hr
+    | cons _ _ => simp at hlen
+  | cons x xs ih =>
+    intro os acc hlen hmem r hr hw
+    cases os with
+    | nil => simp at hlen
+    | cons o os =>
+      have ho := hleaf acc x o (hmem _ (by simp [ladderLeaves]))
+      cases xs with
+      | nil =>
+        have : os = [] := by
+          cases os with
+          | nil => rfl
+          | cons _ _ => simp at hlen
+        subst this
+        simp at hr
+        subst hr
+        simpa using ho
+      | cons x' xs' =>
+        have hos : os ≠ [] := by
+          intro e; subst e; simp at hlen
+        have hr' : os.getLast? = some r := by
+          rw [List.getLast?_cons_of_ne_nil hos] at hr
+          exact hr
+        have := ih os o (by simpa using hlen) (fun c hc => hmem c (by simp [ladderLeaves, hc])) r hr'
+          (fun o' ho' => hw o' (by simp [ho']))
+        rw [this]
+        simp only [List.foldl_cons]
+        have h1 := fold_mod_congr f hmod (wd r) (xs'.map V) (f (V o) (V x')) (f (f (V acc) (V x)) (V x')) (by
+          rw [hmod (V o), hmod (f (V acc) (V x)), ho, mod_mod_pow _ _ _ (hw o (by simp))])
+        simpa [List.foldl_map] using h1
+
+theorem gate_val {wd : Nat → Nat} {V : Nat → Nat} {ls : List CLeaf} (hfix : LeavesFix wd V ls) (mk : Nat → Nat → Nat → Kind)
+    (f : Nat → Nat → Nat) (hleaf : ∀ a b o, (mk a b o).leaf wd ∈ ls → V o = f (V a) (V b) % 2 ^ wd o)
+    (hmod : ∀ p q w, f p q % 2 ^ w = f (p % 2 ^ w) (q % 2 ^ w) % 2 ^ w)
+    (a : Nat) (rest : List Nat) (r : Nat) (ts : List Nat)
+    (hshape : ((a :: rest).length = 1 ∧ ts = []) ∨ ts.length + 2 = (a :: rest).length) (hw : ∀ t, t ∈ ts → wd r ≤ wd t)
+    (hmem : ∀ c, c ∈ gateLeaves wd mk (a :: rest) r ts → c ∈ ls) :
+    V r = (rest.foldl (fun p x => f p (V x)) (V a)) % 2 ^ wd r := by
+  cases rest with
+  | nil =>
+    rw [fix_buf hfix a r (hmem _ (by simp [gateLeaves]))]
+    rfl
+  | cons x xs =>
+    have hlen : ts.length = xs.length := by
+      rcases hshape with ⟨h, _⟩ | h
+      · simp at h
+      · simp at h; omega
+    exact ladder_val mk f hleaf hmod (x :: xs) (ts ++ [r]) a (by simp [hlen]) hmem r (by simp)
+      (fun o ho => by
+        simp only [List.mem_append, List.mem_singleton] at ho
+        rcases ho with h | h
+        · exact hw o h
+        · subst h; exact Nat.le_refl _)
+
+theorem and_hmod (p q w : Nat) : (p &&& q) % 2 ^ w = ((p % 2 ^ w) &&& (q % 2 ^ w)) % 2 ^ w := by
+  rw [Nat.and_mod_two_pow, Nat.and_mod_two_pow, Nat.mod_mod, Nat.mod_mod]
+theorem or_hmod (p q w : Nat) : (p ||| q) % 2 ^ w = ((p % 2 ^ w) ||| (q % 2 ^ w)) % 2 ^ w := by
+  rw [Nat.or_mod_two_pow, Nat.or_mod_two_pow, Nat.mod_mod, Nat.mod_mod]
+
+theorem reads_chainE (op : String) (ys : List String) (e : Expr) : ∀ n, n ∈ reads (chainE op e ys) ↔ (n ∈ reads e ∨ n ∈ ys) := by
+  induction ys generalizing e with
+  | nil => intro n; simp [chainE]
+  | cons y ys ih =>
+    intro n
+    simp only [chainE, List.foldl_cons]
+    have := ih (.bin op e (.id y)) n
+    simp only [chainE] at this
+    rw [this]
+    simp [reads, or_assoc]
+
+theorem reads_binChain (op : String) (l : List String) (hl : l ≠ []) : ∀ n, n ∈ reads (binChain op l) ↔ n ∈ l := by
+  cases l with
+  | nil => exact absurd rfl hl
+  | cons x xs =>
+    intro n
+    rw [binChain_cons, reads_chainE]
+    simp [reads]
+
+theorem nary_ne {wd : Nat → Nat} {op : NOp} {ins : List Nat} {r : Nat} {ts : List Nat} {mid : Nat}
+    (hok : (GKind.nary op ins r ts mid).okb wd = true) : ins ≠ [] := by
+  intro e
+  subst e
+  cases op <;> simp [GKind.okb] at hok
 
 /-! ### Bits leaves -/
 
@@ -172,15 +286,86 @@ theorem single_get {α : Type} (x : α) (j : Nat) (y : α) (h : [x][j]? = some y
 theorem gkind_just (wd : Nat → Nat) (nm : Nat → String) (k : GKind) (hok : k.okb wd = true) (V : Nat → Nat)
     (hfix : LeavesFix wd V (k.leaves wd)) (j : Nat) (a : LHS × Expr) (o : Nat)
     (ha : (k.assigns wd nm)[j]? = some a) (ho : k.outs[j]? = some o) (r : Rd)
-    (hK : ∀ x, x ∈ k.ins wd → Known r (nm x) (wd x) (V x)) :
+    (hK : ∀ x, x ∈ k.ins wd → Known r (nm x) (wd x) (V x)) (hg : k.good V) :
     evalAssign r (wd o) a.2 = ⟨wd o, V o, true⟩ := by
   cases k with
+  | dm isMod x y z =>
+    obtain ⟨_, e1⟩ := single_get _ _ _ ha
+    obtain ⟨_, e2⟩ := single_get _ _ _ ho
+    subst e1 e2
+    have hx := hK x (by simp [GKind.ins])
+    have hy := hK y (by simp [GKind.ins])
+    have hz : V y ≠ 0 := hg
+    have hf := hfix _ (List.mem_singleton.mpr rfl) (o, _) (by rw [outs_single _ rfl]; exact List.mem_singleton.mpr rfl)
+    simp only [List.map, g_cons0, g_cons1] at hf
+    rw [hf]
+    cases isMod with
+    | true =>
+      simp only [if_true]
+      have := Leaf.gen_mod (wd o) (V x) (V y) hz
+      simp only [Leaf.landed] at this
+      rw [this]
+      exact inline_mod (wd o) hx hy hz
+    | false =>
+      simp only [Bool.false_eq_true, if_false]
+      have := Leaf.gen_div (wd o) (V x) (V y) hz
+      simp only [Leaf.landed] at this
+      rw [this]
+      exact inline_div (wd o) hx hy hz
   | prim p =>
     obtain ⟨_, e1⟩ := single_get _ _ _ ha
     obtain ⟨_, e2⟩ := single_get _ _ _ ho
     subst e1 e2
     rw [hfix.single p (by simp [GKind.leaves])]
     exact kind_eval wd nm p (okb_prim wd p hok) r V hK
+  | nary op ins z ts mid =>
+    have hne := nary_ne hok
+    obtain ⟨x, rest, e⟩ := List.exists_cons_of_ne_nil hne
+    subst e
+    have hKl : ∀ y, y ∈ (nm x, wd x, V x) :: (rest.map fun y => (nm y, wd y, V y)) → Known r y.1 y.2.1 y.2.2 := by
+      intro y hy
+      simp only [List.mem_cons, List.mem_map] at hy
+      rcases hy with e | ⟨u, hu, e⟩
+      · subst e; exact hK x (by simp [GKind.ins])
+      · subst e; exact hK u (by simp [GKind.ins, hu])
+    cases op with
+    | and =>
+      obtain ⟨_, e1⟩ := single_get _ _ _ ha
+      obtain ⟨_, e2⟩ := single_get _ _ _ ho
+      subst e1 e2
+      simp only [GKind.okb, Bool.and_eq_true, decide_eq_true_eq, List.all_eq_true] at hok
+      have hv := gate_val hfix Kind.and2 (· &&& ·) (fun a b o h => by rw [fix_and2 hfix a b o h]; rfl) and_hmod x rest o ts
+        hok.1 hok.2 (fun c hc => hc)
+      have ht := (evalAssign_chain "and" (· &&& ·) (by decide) (by decide) (by decide) (by intro W a b; simp [arith]) r (wd o)
+        (nm x, wd x, V x) (rest.map fun y => (nm y, wd y, V y)) hKl).1
+      simp only [List.map_cons, List.map_map, Function.comp_def, List.foldl_map] at ht
+      show evalAssign r (wd o) (binChain "and" ((x :: rest).map nm)) = _
+      rw [List.map_cons, ht, hv]
+    | or =>
+      obtain ⟨_, e1⟩ := single_get _ _ _ ha
+      obtain ⟨_, e2⟩ := single_get _ _ _ ho
+      subst e1 e2
+      simp only [GKind.okb, Bool.and_eq_true, decide_eq_true_eq, List.all_eq_true] at hok
+      have hv := gate_val hfix Kind.or2 (· ||| ·) (fun a b o h => by rw [fix_or2 hfix a b o h]; rfl) or_hmod x rest o ts
+        hok.1 hok.2 (fun c hc => hc)
+      have ht := (evalAssign_chain "or" (· ||| ·) (by decide) (by decide) (by decide) (by intro W a b; simp [arith]) r (wd o)
+        (nm x, wd x, V x) (rest.map fun y => (nm y, wd y, V y)) hKl).1
+      simp only [List.map_cons, List.map_map, Function.comp_def, List.foldl_map] at ht
+      show evalAssign r (wd o) (binChain "or" ((x :: rest).map nm)) = _
+      rw [List.map_cons, ht, hv]
+    | nor =>
+      obtain ⟨_, e1⟩ := single_get _ _ _ ha
+      obtain ⟨_, e2⟩ := single_get _ _ _ ho
+      subst e1 e2
+      simp only [GKind.okb, Bool.and_eq_true, decide_eq_true_eq, List.all_eq_true] at hok
+      have hfix' : LeavesFix wd V (gateLeaves wd Kind.or2 (x :: rest) mid ts ++ [(Kind.not1 mid o).leaf wd]) := hfix
+      have hv := gate_val hfix' Kind.or2 (· ||| ·) (fun a b o h => by rw [fix_or2 hfix' a b o h]; rfl) or_hmod x rest mid ts
+        hok.1.1 hok.1.2 (fun c hc => by simp [hc])
+      have hr := fix_not1 hfix' mid o (by simp)
+      have ht := evalAssign_notchain r (wd o) (nm x, wd x, V x) (rest.map fun y => (nm y, wd y, V y)) hKl
+      simp only [List.map_cons, List.map_map, Function.comp_def, List.foldl_map] at ht
+      show evalAssign r (wd o) (.un "not" (binChain "or" ((x :: rest).map nm))) = _
+      rw [List.map_cons, ht, hr, hv, not1_mod _ _ _ (Or.inl hok.2)]
   | bitsL x bits =>
     simp only [GKind.okb, Bool.and_eq_true, decide_eq_true_eq, Bool.not_eq_true', List.contains_eq_mem, decide_eq_false_iff_not] at hok
     exact just_bits wd nm V (bitsFnL (wd x)) x bits hok.1.1.1.2 hok.1.1.1.1 hok.2
@@ -242,6 +427,24 @@ theorem gkind_reads_sub (wd : Nat → Nat) (nm : Nat → String) (k : GKind) (j 
     subst e1
     rcases List.mem_map.mp (FlatDesign.reads_rhs_sub wd nm p n hn) with ⟨x, hx, e⟩
     exact ⟨x, hx, e.symm⟩
+  | dm isMod x y z =>
+    obtain ⟨_, e1⟩ := single_get _ _ _ ha
+    subst e1
+    simp [reads] at hn
+    rcases hn with h | h
+    · exact ⟨x, by simp [GKind.ins], h⟩
+    · exact ⟨y, by simp [GKind.ins], h⟩
+  | nary op ins z ts mid =>
+    cases op <;>
+    · obtain ⟨_, e1⟩ := single_get _ _ _ ha
+      subst e1
+      cases ins with
+      | nil => simp [binChain, reads, FlatM.lit] at hn
+      | cons u us =>
+        simp only [reads] at hn
+        rw [reads_binChain _ _ (by simp)] at hn
+        rcases List.mem_map.mp hn with ⟨x, hx, e⟩
+        exact ⟨x, hx, e.symm⟩
   | bitsL x bits =>
     obtain ⟨b, _, _, hf⟩ := bitsAssigns_get nm x bits j a ha
     rcases hf with ⟨_, e⟩ | ⟨_, e⟩ <;> rw [e] at hn <;> simp [reads, FlatM.lit] at hn <;> exact ⟨x, by simp [GKind.ins], hn⟩
@@ -279,6 +482,19 @@ theorem gkind_reads_sup (wd : Nat → Nat) (nm : Nat → String) (k : GKind) (ho
     obtain ⟨_, e1⟩ := single_get _ _ _ ha
     subst e1
     exact FlatDesign.reads_rhs_sup wd nm p (okb_prim wd p hok) x hx
+  | dm isMod u v z =>
+    obtain ⟨_, e1⟩ := single_get _ _ _ ha
+    subst e1
+    simp [GKind.ins] at hx
+    rcases hx with h | h <;> subst h <;> simp [reads]
+  | nary op ins z ts mid =>
+    have hne := nary_ne hok
+    cases op <;>
+    · obtain ⟨_, e1⟩ := single_get _ _ _ ha
+      subst e1
+      simp only [reads]
+      rw [reads_binChain _ _ (by simpa using hne)]
+      exact List.mem_map.mpr ⟨x, hx, rfl⟩
   | bitsL y bits =>
     obtain ⟨b, _, _, hf⟩ := bitsAssigns_get nm y bits j a ha
     have : x = y := by simpa [GKind.ins] using hx
